@@ -55,6 +55,7 @@ type ItemResult struct {
 	Terms      int                 `json:"terms"`
 	Error      string              `json:"error,omitempty"`
 	PartsN     int                 `json:"parts_n,omitempty"`
+	Notes      []string            `json:"notes,omitempty"`
 }
 
 func pkgPath(rel string) string {
@@ -158,6 +159,12 @@ func runItem(P *Program, it Item) (res *ItemResult) {
 	res.Paths, res.Forks, res.Steps = m.Paths, m.Forks, m.Steps
 	res.Queries, res.Sat, res.Unsat, res.Unknown = m.sol.Queries, m.sol.Sat, m.sol.Unsat, m.sol.Unknown
 	res.SolverS = m.sol.Time.Seconds()
+	if m.lra != nil { // linear real arithmetic session (lin.go)
+		res.Queries, res.Sat, res.Unsat, res.Unknown = res.Queries+m.lra.Queries, res.Sat+m.lra.Sat, res.Unsat+m.lra.Unsat, res.Unknown+m.lra.Unknown
+		res.SolverS += m.lra.Time.Seconds()
+		m.lra.close()
+	}
+	res.Notes = append(res.Notes, m.lraNotes...)
 	res.PureCalls, res.Terms = m.PureCalls, termSeq
 	for _, k := range m.findingOrder {
 		res.Findings = append(res.Findings, m.findings[k])
